@@ -671,4 +671,165 @@ theorem inv_run : ∀ (evs : List Ev) (s s' : State), Inv s → run s evs = some
     · rename_i s1 hs1
       exact inv_run es s1 s' (inv_step e hinv hs1) h
 
+/-! ### the final wait terminates -/
+
+/-- steps the `startWait` goroutine of a child still has to take at most -/
+def wmu (c : Child) : Nat :=
+  match c.w with
+  | .waiting => 3
+  | .backoff => 2
+  | .sending => 1
+  | .done => 0
+
+def mu (s : State) : Nat := wsum wmu s.kids
+
+theorem noLive_final {s : State} {e : Err} (hinv : Inv s) (hpc : s.pc = .finalWait e) :
+    ∀ c ∈ s.kids, c.proc ≠ .alive := by
+  intro c hc
+  have hs := hinv.shI
+  unfold ShutInv at hs
+  rw [hpc] at hs
+  simp only [ShutP] at hs
+  obtain ⟨i, hi⟩ := List.getElem?_of_mem hc
+  have hk := hinv.kid i c hi
+  cases hrp : c.reported
+  · exact (hk.killed_g (hs.2.2.2 c hc hrp)).2.2
+  · have hw := hk.deliv_done (hk.rep_deliv hrp)
+    intro hal
+    have := hk.wproc.mpr (by rw [hal]; simp)
+    rw [hw] at this; cases this
+
+theorem mu_set_lt {s : State} {i : Nat} {c c' : Child} (hc : s.kids[i]? = some c) (hlt : wmu c' < wmu c) :
+    mu { s with kids := s.kids.set i c' } < mu s := by
+  unfold mu
+  have := wsum_set wmu s.kids i c c' hc
+  simp only
+  omega
+
+/-- in the final `wg.Wait()` every enabled step either ends the wait or brings a goroutine closer to its end -/
+theorem final_step {s s' : State} {e : Err} {ev : Ev} (hinv : Inv s) (hpc : s.pc = .finalWait e)
+    (h : step s ev = some s') : s'.pc = .returned e ∨ (s'.pc = .finalWait e ∧ mu s' < mu s) := by
+  have hnl := noLive_final hinv hpc
+  cases ev
+  case childExit i =>
+    simp only [step] at h
+    obtain ⟨c, c', hc, hf, rfl⟩ := updKid_spec h
+    split at hf
+    · rename_i hal; exact absurd hal (hnl c (List.mem_of_getElem? hc))
+    · cases hf
+  case waitReturns i =>
+    simp only [step] at h
+    obtain ⟨c, c', hc, hf, rfl⟩ := updKid_spec h
+    split at hf
+    · rename_i hcond
+      cases hf
+      refine Or.inr ⟨hpc, mu_set_lt hc ?_⟩
+      cases hb : s.backoffOn <;> simp [wmu, hcond.2]
+    · cases hf
+  case backoffDone i =>
+    simp only [step] at h
+    obtain ⟨c, c', hc, hf, rfl⟩ := updKid_spec h
+    split at hf
+    · rename_i hcond
+      cases hf
+      exact Or.inr ⟨hpc, mu_set_lt hc (by simp [wmu, hcond])⟩
+    · cases hf
+  case ctxDone i =>
+    simp only [step] at h
+    obtain ⟨c, c', hc, hf, rfl⟩ := updKid_spec h
+    split at hf
+    · rename_i hcond
+      cases hf
+      refine Or.inr ⟨hpc, mu_set_lt hc ?_⟩
+      rcases hcond.2 with hw | hw <;> simp [wmu, hw]
+    · cases hf
+  case deliver i =>
+    simp only [step] at h
+    split at h
+    · rw [Option.map_eq_some_iff] at h
+      obtain ⟨s1, h1, rfl⟩ := h
+      obtain ⟨c, c', hc, hf, rfl⟩ := updKid_spec h1
+      split at hf
+      · rename_i hcond
+        cases hf
+        exact Or.inr ⟨hpc, mu_set_lt (s := s) hc (by simp [wmu, hcond])⟩
+      · cases hf
+    · cases h
+  case finalDone =>
+    simp only [step, hpc] at h
+    split at h
+    · cases h; exact Or.inl rfl
+    · cases h
+  all_goals
+    simp only [step, hpc] at h
+    first
+      | cases h
+      | (split at h <;> cases h)
+
+/-- after `prefork` returned nothing of it can move any more: no goroutine, no child -/
+theorem returned_no_step {s : State} {e : Err} (hinv : Inv s) (hpc : s.pc = .returned e) (ev : Ev) :
+    step s ev = none := by
+  have hs := hinv.shI
+  unfold ShutInv at hs
+  rw [hpc] at hs
+  simp only [ShutP] at hs
+  have hdone := (allDone_iff s).mp hs.2.2.2
+  have hkid : ∀ (i : Nat) (c : Child), s.kids[i]? = some c → c.w = .done ∧ c.proc = .reaped := by
+    intro i c hc
+    have hw := hdone c (List.mem_of_getElem? hc)
+    have hk := hinv.kid i c hc
+    refine ⟨hw, ?_⟩
+    cases hp : c.proc with
+    | reaped => rfl
+    | alive => have := hk.wproc.mpr (by rw [hp]; simp); rw [hw] at this; cases this
+    | zombie => have := hk.wproc.mpr (by rw [hp]; simp); rw [hw] at this; cases this
+  cases ev
+  case childExit i =>
+    simp only [step, updKid]
+    split
+    · rfl
+    · rename_i c hc; simp [(hkid i c hc).2]
+  case waitReturns i =>
+    simp only [step, updKid]
+    split
+    · rfl
+    · rename_i c hc; simp [(hkid i c hc).1]
+  case backoffDone i =>
+    simp only [step, updKid]
+    split
+    · rfl
+    · rename_i c hc; simp [(hkid i c hc).1]
+  case ctxDone i =>
+    simp only [step, updKid]
+    split
+    · rfl
+    · rename_i c hc; simp [(hkid i c hc).1]
+  case deliver i =>
+    simp only [step, updKid]
+    split
+    · split
+      · rfl
+      · rename_i c hc; simp [(hkid i c hc).1]
+    · rfl
+  all_goals simp [step, hpc]
+
+theorem final_run_bounded : ∀ (evs : List Ev) (s s' : State) (e : Err), Inv s → s.pc = .finalWait e →
+    run s evs = some s' → evs.length ≤ mu s + 1
+  | [], _, _, _, _, _, _ => by simp
+  | ev :: es, s, s', e, hinv, hpc, h => by
+    simp only [run] at h
+    split at h
+    · cases h
+    · rename_i s1 hs1
+      have hinv1 := inv_step ev hinv hs1
+      rcases final_step hinv hpc hs1 with hret | ⟨hfw, hlt⟩
+      · cases es with
+        | nil => simp
+        | cons e2 es2 =>
+          simp only [run, returned_no_step hinv1 hret e2] at h
+          cases h
+      · have := final_run_bounded es s1 s' e hinv1 hfw h
+        simp only [List.length_cons]
+        omega
+
 end Fh.Proofs.Prefork
